@@ -86,6 +86,7 @@ func Universe() []UVal {
 	long := strings.Repeat("lorem ipsum dolor sit amet ", 152) // ~4 KiB
 	u := []UVal{
 		specU("nil", SNil()),
+		specU("nil *struct", withRep(SNil(), "structptr")),
 		specU("true", SBool(true)),
 		specU("named false", withRep(SBool(false), "named")),
 		specU("named true", withRep(SBool(true), "named")),
